@@ -100,6 +100,8 @@ func ZZ_C12_RemovalHistory() {
 	r.mode = types.RW
 	names := []string{"s0", "s1", "s2", "s3", "s4", "s5"}
 	for i := 0; i < n; i++ {
+		// writes happened between the snapshots: each records a different revision count
+		zzAssume(r.SetRevisionCounter(int64(10*(i+1))) == nil)
 		zzAssume(r.Snapshot(names[i], zzNondetBool("user"), "t") == nil)
 	}
 	zzWellFormed("C12.removal.initial", r)
